@@ -118,7 +118,7 @@ func malformSection(r *core.Rand, sec []byte) ([]byte, string) {
 		payload[0] |= byte(8 << uint(r.Intn(5)))
 		return sealSection(payload), "unknown-flag-bit"
 	case 1:
-		payload[0] = 7 &^ payload[0] | payload[0] | byte(1<<uint(r.Intn(3)))
+		payload[0] = 7&^payload[0] | payload[0] | byte(1<<uint(r.Intn(3)))
 		if payload[0] == sec[0] {
 			payload = payload[:len(payload)-r.Range(1, min(len(payload)-1, 40))]
 			return sealSection(payload), "payload-cut-short"
